@@ -45,6 +45,7 @@ type Req struct {
 	Label    string   `json:"label,omitempty"`    // kind 1: "" = label names
 	Matchers []string `json:"matchers,omitempty"` // match[] selectors
 	StartMs  int64    `json:"start_ms,omitempty"` // start of the requested range (end = start + 10m)
+	Point    bool     `json:"point,omitempty"`    // kind 0: the range is the single instant start (end = start)
 }
 
 // Case is a request to add to the table, or (replay / counter-example) a pair to compare directly: the primary
@@ -62,7 +63,11 @@ const splitInterval = time.Hour
 func (q Req) form() (string, url.Values) {
 	f := url.Values{}
 	f.Set("start", strconv.FormatFloat(float64(q.StartMs)/1000, 'f', -1, 64))
-	f.Set("end", strconv.FormatFloat(float64(q.StartMs)/1000+600, 'f', -1, 64))
+	if q.Point {
+		f.Set("end", f.Get("start"))
+	} else {
+		f.Set("end", strconv.FormatFloat(float64(q.StartMs)/1000+600, 'f', -1, 64))
+	}
 	f.Set(queryv1.PartialResponseParam, fmt.Sprint(q.Partial))
 	for _, rl := range q.Replicas {
 		f.Add(queryv1.ReplicaLabelsParam, rl)
@@ -137,7 +142,7 @@ func differ(a, b Req) []string {
 	add(a.Kind != b.Kind, "kind")
 	add(a.Tenant != b.Tenant, "tenant")
 	if a.Kind == 0 && b.Kind == 0 {
-		add(a.Query != b.Query, "query")
+		add(a.Query != b.Query && !sameExpression(a.Query, b.Query), "query")
 		add(a.StepMs != b.StepMs, "step")
 		add(a.resClass() != b.resClass(), "resolution")
 		add(a.Shard != b.Shard, "sharding")
@@ -182,6 +187,112 @@ func has(d []string, x string) bool {
 		}
 	}
 	return false
+}
+
+// exprOf is the canonical rendering of the PromQL expression a query text denotes ("" if it does not parse), memoised.
+var exprMemo sync.Map
+
+func exprOf(q string) (string, bool) {
+	if v, ok := exprMemo.Load(q); ok {
+		s := v.(string)
+		return s, s != ""
+	}
+	s := ""
+	func() {
+		defer func() { _ = recover() }()
+		if e, err := parser.ParseExpr(q); err == nil {
+			s = "=" + e.String()
+		}
+	}()
+	exprMemo.Store(q, s)
+	return s, s != ""
+}
+
+// sameExpression: two different query texts that are layouts of ONE expression (blanks between tokens, a comment)
+// cannot change the answer; the statement does not ask for separate keys. Texts that do not parse are never the same.
+func sameExpression(a, b string) bool {
+	ea, oka := exprOf(a)
+	eb, okb := exprOf(b)
+	return oka && okb && ea == eb
+}
+
+// Whitespace dimension of the query text (family W). PromQL skips blank, tab, LF and CR between tokens, but a line
+// break ends a '#' comment and every whitespace character inside a string literal is part of the value. A key
+// generator that tidies the query text (trims, collapses runs, joins lines) merges different expressions.
+// wsSymbols: the four PromQL blanks, plus two characters that are whitespace for Go's unicode.IsSpace / strings.Fields
+// but not for PromQL (legal inside string literals only).
+var wsSymbols = []string{" ", "\t", "\n", "\r", "\v", "\u00a0"}
+
+// wsRuns yields every whitespace run of length lo..hi over wsSymbols.
+func wsRuns(lo, hi int) []string {
+	var out []string
+	for t := range vlib.TuplesUpTo(lo, hi, len(wsSymbols)) {
+		var b strings.Builder
+		for _, x := range t {
+			b.WriteString(wsSymbols[x])
+		}
+		out = append(out, b.String())
+	}
+	return out
+}
+
+// wsTemplates: one query shape per place where whitespace matters or may be taken for layout; %s is the hole.
+var wsTemplates = [][2]string{
+	{"a #c", "+a"},     // end of a line comment: a line break makes it a+a, anything else leaves a
+	{"a", "+a"},        // plain layout between tokens (same expression whatever the run)
+	{"{a=\"b", "c\"}"}, // inside a double-quoted string literal (a raw line break does not parse)
+	{"{a=`b", "c`}"},   // inside a raw string literal (may hold line breaks)
+	{"{a='b", "c'}"},   // inside a single-quoted string literal
+}
+
+// wsQueries yields lead + template(run) + trail for every run of length 0..maxRun, every template, and leading /
+// trailing layout over leads; only parseable texts are kept (a querier answers 400 to the others: never cached).
+func wsQueries(maxRun int, leads []string, parses func(string) bool) []string {
+	seen := map[string]bool{}
+	var out []string
+	for _, run := range wsRuns(0, maxRun) {
+		for _, tp := range wsTemplates {
+			for _, lead := range leads {
+				for _, trail := range leads {
+					q := lead + tp[0] + run + tp[1] + trail
+					if !seen[q] && parses(q) {
+						seen[q] = true
+						out = append(out, q)
+					}
+				}
+			}
+		}
+	}
+	return out
+}
+
+// wsGroups counts what makes family W non-vacuous: groups of queries equal after a textual tidy-up (strings.Fields
+// joined by one blank) that hold >= 2 different expressions, and those groups with a member holding a non-blank whitespace.
+func wsGroups(qs []string) (groups, withControl, exprs int) {
+	type g struct {
+		exprs map[string]bool
+		ctl   bool
+	}
+	m := map[string]*g{}
+	for _, q := range qs {
+		k := strings.Join(strings.Fields(q), " ")
+		if m[k] == nil {
+			m[k] = &g{exprs: map[string]bool{}}
+		}
+		e, _ := exprOf(q)
+		m[k].exprs[e] = true
+		m[k].ctl = m[k].ctl || strings.ContainsAny(q, "\t\n\r\v\u00a0")
+	}
+	for _, x := range m {
+		if len(x.exprs) >= 2 {
+			groups++
+			exprs += len(x.exprs)
+			if x.ctl {
+				withControl++
+			}
+		}
+	}
+	return
 }
 
 // stringsOver yields all strings of length lo..hi over the alphabet.
@@ -302,7 +413,25 @@ func gen(r *vlib.R) iter.Seq[Case] {
 	startsS := []int64{0, 20000}
 	hist := histories(r, parses)
 	r.Set("history_pairs", len(hist))
+	// family W: whitespace-significant query texts
+	queriesW := wsQueries(vlib.Pick(r, 2, 3), vlib.Pick(r, []string{"", " ", "\n", "\t"}, []string{"", " ", "\n", "\t", "\r", "\r\n", " \n"}), parses)
+	wg, wgc, wge := wsGroups(queriesW)
+	r.Set("whitespace_different_expressions_inside_those_groups", wge)
+	r.Set("whitespace_queries", len(queriesW))
+	r.Set("whitespace_groups_equal_after_textual_tidy_up_holding_different_expressions", wg)
+	r.Set("whitespace_groups_of_those_with_a_tab_or_line_break", wgc)
 	return func(yield func(Case) bool) {
+		// family W: 2 tenants x whitespace queries x a step and its lower common step (primary and alternative keys)
+		for _, tn := range tenantsFew {
+			for _, q := range queriesW {
+				for _, st := range []int64{30000, 60000} {
+					// a request for one instant: the only range request whose query text the split middleware hands on verbatim
+					if !yield(Case{A: Req{Kind: 0, Tenant: tn, Query: q, StepMs: st, Point: true}}) {
+						return
+					}
+				}
+			}
+		}
 		// family S: every tenant x queries over {a :} x steps x starts: the keys read through the alternatives meet the
 		// keys written by the same and by other tenants at every lower step
 		for _, tn := range tenantsAll {
@@ -515,12 +644,14 @@ func TestCheck(t *testing.T) {
 		"S: tenants x queries len<=2 over {a :} x steps {1s 15s 20s 30s 45s 60s} x start {0 20s}; T: 2 tenants x 2 queries x steps {15m 30m} x max_source_resolution x shard x lookback x engine x 4 replica sets x partial x analyze; " +
 		"every request enters the table under its primary key (written and read) AND under each of its alternative keys (GenerateCacheKeyAlternatives: read only); a reader of a key must be servable from the writer: same request, or same but for a step that is lower, divides the reader's step and its start; " +
 		"H: every ordered pair of distinct requests of {tenants len<=2 over {a :} x queries len<=2 over {a :} x steps {30s 60s}} and of {same tenants x (labels, label values a and ':', series with replica labels none/a/':') x matcher sets} as a history through the real NewTripperware with real results caches: unless servable, the second answer must equal the answer of a frontend with empty caches. " +
-		"All keys in one table. non-trivial = distinct requests whose tenant, query, label name, engine, a matcher or a replica label contains a separator or escape character; distinct (alternative key, reader step, start) that meet the entry written by the lower-step request; history pairs that are not servable and whose first request was stored")
+		"W: 2 tenants x query texts lead + template(run) + trail, run = every whitespace run of length 0..2 (thorough 3) over {blank TAB LF CR VT NBSP}, templates {end of a # comment, layout between tokens, inside a double-quoted / single-quoted / raw string literal}, lead and trail over {none blank LF TAB} (thorough + CR, CRLF, blank LF), parseable texts only, on requests for one instant (start == end: the range requests whose text the split middleware hands on verbatim) x steps {30s 60s}; the same texts (runs <= 1) as histories in H. Queries are compared as text, but two texts that parse to one expression are not asked to have different keys (counted). " +
+		"All keys in one table. non-trivial = distinct requests whose tenant, query, label name, engine, a matcher or a replica label contains a separator or escape character; distinct (alternative key, reader step, start) that meet the entry written by the lower-step request; history pairs that are not servable and whose first request was stored; distinct requests whose query text holds a TAB, line break, VT or NBSP")
 	r.Assume("tenant = value of the tenant header as injected by cmd/thanos (extractOrgId), validated by the real tenant resolver",
 		"outside family E the engine is restricted to the values a querier accepts (\"\", prometheus, thanos); shard_info By/Labels of a client-supplied shard_info are not varied",
 		"partial_response differing between two labels or two series requests is only noted: answers with store warnings carry Cache-Control: no-store and are never cached, so it cannot change a cached answer",
 		"replicaLabels[]= (one empty label) and no replicaLabels[] at all are different requests: the frontend forwards the former and a querier then replaces its configured replica labels by [\"\"]",
 		"an alternative (lower-step) lookup is legitimate when the two requests agree on tenant and every listed parameter (resolution by class of each request's own max_source_resolution) and the writer's step is lower than, and divides, the reader's step and start; the writer's own start alignment is not in the key and not judged",
+		"two query texts that parse to the same PromQL expression (Expr.String() equal) cannot change the answer: the statement does not ask for separate keys, and the split middleware itself replaces the text of every request with start < end by that rendering",
 		"family H: the querier is a fake whose answer names the tenant header and every forwarded parameter (samples valued by their timestamp); split interval 1h, range 10m, FIFO caches, no step alignment / downsampled retry / retries / sharding middleware; answers of servable pairs are not compared (extraction from an entry is not this property)")
 
 	// one table of all keys, split by key hash into independently locked parts so that the workers do not queue.
@@ -538,6 +669,7 @@ func TestCheck(t *testing.T) {
 		table                          [256]part
 		seen, rejected, uncached, dups atomic.Int64
 		altKeys, altLegit              atomic.Int64
+		sameExprShared                 atomic.Int64
 	)
 	for i := range table {
 		table[i].m = map[string]*slot{}
@@ -550,10 +682,18 @@ func TestCheck(t *testing.T) {
 	report := func(a, b Req, key string) {
 		d := differ(a, b)
 		if len(d) == 0 {
+			if a.Kind == 0 && a.Query != b.Query {
+				sameExprShared.Add(1) // two layouts of one expression: cannot change the answer
+			}
 			return
 		}
 		c := Case{A: a, B: &b}
 		desc := fmt.Sprintf("requests differing in %v share the cache key %q", d, key)
+		if has(d, "query") && a.Kind == 0 && strings.Join(strings.Fields(a.Query), "") == strings.Join(strings.Fields(b.Query), "") {
+			ea, _ := exprOf(a.Query)
+			eb, _ := exprOf(b.Query)
+			desc += fmt.Sprintf("; the query texts %q (%s) and %q (%s) differ only in whitespace, which is significant here", a.Query, ea, b.Query, eb)
+		}
 		// d is in a fixed priority order; the signature names the first listed parameter that differs.
 		switch first := d[0]; {
 		case first == "kind" && has(d, "tenant"):
@@ -640,6 +780,9 @@ func TestCheck(t *testing.T) {
 		if strings.ContainsAny(c.A.Tenant+c.A.Query+c.A.Label+c.A.Engine+strings.Join(c.A.Replicas, "")+strings.Join(c.A.Matchers, ""), ":,|-\\") {
 			r.Nontrivial(ka.key + "\x00" + c.A.Tenant + "\x00" + strings.Join(c.A.Replicas, "\x00"))
 		}
+		if c.A.Kind == 0 && strings.ContainsAny(c.A.Query, "\t\n\r\v\u00a0") {
+			r.Nontrivial("ws\x00" + ka.key + "\x00" + c.A.Query)
+		}
 		self := c.A
 		// the key the entry is written (and read) under
 		pt := partOf(ka.key)
@@ -701,6 +844,7 @@ func TestCheck(t *testing.T) {
 	r.Set("history_second_request_served_from_the_cache_where_the_reference_allows_it", histServedFromCache.Load())
 	r.Set("history_servable_pairs_whose_answer_differs_from_a_fresh_one", histServableDiffers.Load())
 	r.Set("alternative_lookups_meeting_the_lower_step_entry_of_the_same_request", altLegit.Load())
+	r.Set("pairs_of_layouts_of_one_expression_sharing_a_key_not_judged", sameExprShared.Load())
 	r.Set("rejected_by_frontend", rejected.Load())
 	r.Set("not_cacheable", uncached.Load())
 	r.Set("requests_sharing_a_key_with_an_earlier_one", dups.Load())
